@@ -4,6 +4,7 @@ import (
 	"encoding/json"
 	"errors"
 	"fmt"
+	"math"
 	"os"
 	"path/filepath"
 	"sync"
@@ -150,6 +151,12 @@ func (c *Config) Validate() error {
 
 	if c.CompactionRatio <= 1.0 {
 		return fmt.Errorf("%w: Compaction ratio must be greater than 1.0", ErrInvalidConfig)
+	}
+
+	// NaN passes every comparison and +Inf is greater than 1.0, but neither
+	// is usable as a ratio nor can it be stored in the manifest (JSON)
+	if math.IsNaN(c.CompactionRatio) || math.IsInf(c.CompactionRatio, 0) {
+		return fmt.Errorf("%w: Compaction ratio must be a finite number", ErrInvalidConfig)
 	}
 
 	// Validate Transaction settings
